@@ -54,10 +54,24 @@ class Scale:
         self.den = (2 if kind == "dyadic" else 10) ** k
 
     def f(self, n):
+        if self.kind == "near":
+            # order-isomorphic grid of binary64 neighbours: tick 2m is m/10, tick 2m+1 the next float above it
+            # (0.3 and 0.1+0.2); only for operations that select and compare times but compute no new ones
+            import math
+            base = (n // 2) / 10.0
+            return math.nextafter(base, math.inf) if n % 2 else base
         return n / self.den
 
     def tick(self, x):
         """float -> (tick, ok).  ok is False when x is not (close to) on the grid."""
+        if self.kind == "near":
+            import math
+            m = round(x * 10)
+            if x == m / 10.0:
+                return 2 * m, True
+            if x == math.nextafter(m / 10.0, math.inf):
+                return 2 * m + 1, True
+            return 2 * m, False
         v = x * self.den
         n = round(v)
         if self.kind == "dyadic":
